@@ -8,7 +8,7 @@ namespace Manticore.C09
 open Manticore
 open Manticore.Gen
 
-/-- the package constants and their uses agree -/
+-- the package constants and their uses agree
 theorem consts_match_model_package_constants :
     ConstsC09.validate_nameMax = ConstsC09.maxDomainLength ∧ ConstsC09.encode_total_max = ConstsC09.maxDomainLength
       ∧ ConstsC09.validate_labelMax = ConstsC09.maxLabelLength ∧ ConstsC09.encode_labelMax = ConstsC09.maxLabelLength
@@ -16,26 +16,26 @@ theorem consts_match_model_package_constants :
       ∧ ConstsC09.message_minLen = ConstsC09.headerSize ∧ ConstsC09.message_firstOffset = ConstsC09.headerSize
       := by decide
 
-/-- the RFC 1035 limits of the specification are the package's limits -/
+-- the RFC 1035 limits of the specification are the package's limits
 theorem consts_match_model_spec_limits (l : Spec.DNS.Label) (n : Spec.DNS.Name) :
     (Spec.DNS.ValidLabel l ↔ 1 ≤ l.length ∧ l.length ≤ ConstsC09.maxLabelLength)
       ∧ (Spec.DNS.ValidName n ↔ (∀ l ∈ n, Spec.DNS.ValidLabel l) ∧ (Spec.DNS.nameWire n).length ≤ ConstsC09.maxDomainLength) :=
   ⟨Iff.rfl, Iff.rfl⟩
 
-/-- `ValidateDomainName` -/
+-- `ValidateDomainName`
 theorem consts_match_model_validateName (name : Bytes) :
     validateName name =
       if name.length > ConstsC09.validate_nameMax then false
       else (splitDots name).all (fun l => !(l.length > ConstsC09.validate_labelMax)) := by exact rfl
 
-/-- `EncodeDomainName`, one label -/
+-- `EncodeDomainName`, one label
 theorem consts_match_model_encodeLabels (l : Bytes) (ls : List Bytes) (buf : Bytes) :
     encodeLabels (l :: ls) buf =
       if l.length = ConstsC09.encode_emptyLabel then .err
       else if l.length > ConstsC09.encode_labelMax then .err
       else encodeLabels ls (buf ++ UInt8.ofNat l.length :: l) := by exact rfl
 
-/-- `EncodeDomainName`: the two spellings of the root, its encoding, the total-length check, the terminator -/
+-- `EncodeDomainName`: the two spellings of the root, its encoding, the total-length check, the terminator
 theorem consts_match_model_encodeName (name : Bytes) :
     encodeName name =
       if name = [] ∨ name = [dot] then .ok ConstsC09.encode_rootBytes
@@ -51,13 +51,13 @@ theorem consts_match_model_encodeName_shape :
     ConstsC09.encode_rootNames = ["", "."] ∧ ConstsC09.encode_total_shape = "(> (+ (len buf) 1) 255)"
       ∧ ConstsC09.encode_lengthByte_shape = "(append buf (byte (len label)))" := ⟨rfl, rfl, rfl⟩
 
-/-- the compression pointer: 14-bit mask on a 16-bit big-endian read -/
+-- the compression pointer: 14-bit mask on a 16-bit big-endian read
 theorem consts_match_model_ptrOf (b0 b1 : UInt8) :
     ptrOf b0 b1 = (be16 b0 b1 &&& UInt16.ofNat ConstsC09.decode_pointerMask).toNat
       ∧ ConstsC09.decode_pointer_le = false ∧ ConstsC09.decode_pointer_width = 16 := ⟨rfl, rfl, rfl⟩
 
-/-- `DecodeDomainName`, one turn of the loop: end-of-name byte, pointer test, bytes a pointer needs, bytes a pointer
-    consumes -/
+-- `DecodeDomainName`, one turn of the loop: end-of-name byte, pointer test, bytes a pointer needs, bytes a pointer
+-- consumes
 theorem consts_match_model_decodeName_step (data : Bytes) (start curr : Nat) (labels : List Bytes) (cost : Nat) :
     go data start curr labels cost =
       if h : data.length ≤ curr then .err
@@ -98,7 +98,7 @@ theorem consts_match_model_decodeName_shape :
       = ["(== (& length 192) 192)", "(>= (+ curr 1) (len data))", "(int (& (binary.BigEndian.Uint16 (slice data curr _)) 16383))",
          "(>= pointer start)", "(> (+ curr length) (len data))"] := by exact rfl
 
-/-- `DecodeQuestion`: the four fixed bytes, big-endian 16-bit reads at +0 and +2 -/
+-- `DecodeQuestion`: the four fixed bytes, big-endian 16-bit reads at +0 and +2
 theorem consts_match_model_decodeQuestion (data : Bytes) (offset : Nat) :
     decodeQuestion data offset =
       match decodeName data offset with
@@ -113,7 +113,7 @@ theorem consts_match_model_decodeQuestion (data : Bytes) (offset : Nat) :
       | .err => .err
       | .panic => .panic := by exact rfl
 
-/-- `DecodeResourceRecord`: the ten fixed bytes and the running offsets 2, 4, 8, 10 -/
+-- `DecodeResourceRecord`: the ten fixed bytes and the running offsets 2, 4, 8, 10
 theorem consts_match_model_decodeRR (data : Bytes) (offset : Nat) :
     decodeRR data offset =
       match decodeName data offset with
@@ -136,7 +136,7 @@ theorem consts_match_model_decodeRR (data : Bytes) (offset : Nat) :
       | .err => .err
       | .panic => .panic := by exact rfl
 
-/-- every multi-byte field of the codec is big-endian, of the widths the model reads and writes, in the model's order -/
+-- every multi-byte field of the codec is big-endian, of the widths the model reads and writes, in the model's order
 theorem consts_match_model_byte_order :
     ConstsC09.question_type_le = false ∧ ConstsC09.question_class_le = false ∧ ConstsC09.rr_anyLittle = false
       ∧ ConstsC09.message_anyLittle = false
@@ -149,7 +149,7 @@ theorem consts_match_model_encode_order :
       ∧ ConstsC09.message_encode = ["16b:m.ID", "16b:m.Flags", "16b:m.QDCount", "16b:m.ANCount", "16b:m.NSCount", "16b:m.ARCount"] :=
   ⟨rfl, rfl, rfl⟩
 
-/-- `DecodeMessage`: minimum length, the six header offsets, where the sections start -/
+-- `DecodeMessage`: minimum length, the six header offsets, where the sections start
 theorem consts_match_model_decodeMessage (data : Bytes) :
     decodeMessage data =
       if data.length < ConstsC09.message_minLen then .err
